@@ -40,6 +40,9 @@ type Profile struct {
 	NoInitShardsAboveGroupSize bool
 	// NoDropDefaultRP does not mark the default policy of a database for deletion.
 	NoDropDefaultRP bool
+	// NoAmbiguousDropSubscription does not send DROP SUBSCRIPTION name ON db (without policy) when several policies of the
+	// database hold a subscription of that name (known class: which one goes depends on map iteration order).
+	NoAmbiguousDropSubscription bool
 	// NoCancelDeleteNextToReplacement does not revive (CancelDelete) a deleted shard group whose span a live group covers.
 	NoCancelDeleteNextToReplacement bool
 	// IndexDeleteOnlyWhenUnreferenced models the retention service: an index group is deleted / its indexes pruned only when no
@@ -1165,6 +1168,23 @@ func (g *Gen) gen(t *rapid.T, kind string) {
 			rp = ""
 		}
 		name := pick(t, []string{"sub0", "sub1", ""}, "sub")
+		if g.Prof.NoAmbiguousDropSubscription && rp == "" && name != "" && db != "" {
+			// DROP SUBSCRIPTION name ON db (no policy) removes the first match met while ranging over the policy map
+			n := 0
+			if dbi := d.Databases[db]; dbi != nil {
+				for _, r := range dbi.RetentionPolicies {
+					for i := range r.Subscriptions {
+						if r.Subscriptions[i].Name == name {
+							n++
+						}
+					}
+				}
+			}
+			if n > 1 {
+				g.Excluded["drop-subscription-without-policy-ambiguous"]++
+				return
+			}
+		}
 		g.emit(Op{K: kind, DB: db, RP: rp, Name: name})
 	case "createdownsample":
 		// the statement executor checks db, rp and "no policy yet" against its catalogue and validates the intervals
